@@ -291,6 +291,24 @@ theorem frame_setItem (nm : String) (init : Init V) :
   unfold setItem
   frame_auto
 
+macro_rules | `(tactic| frame_leaf) => `(tactic| exact frame_setItem _ _)
+
+theorem frame_readAll {T : String → Prop} (o : Ops V) (cols cells : List String) :
+    Frame T (fun _ => True) (readAll (σ := ATab V) o cols cells) := by
+  unfold readAll
+  frame_auto
+macro_rules | `(tactic| frame_leaf) => `(tactic| exact frame_readAll _ _ _)
+
+theorem frame_opaqueVoid (o : Ops V) (cols cells : List String) (out : String) (vals : List V) :
+    Frame (· = out) (fun _ => True) (opaqueVoid (σ := ATab V) o cols cells out vals) := by
+  unfold opaqueVoid
+  frame_auto
+
+theorem frame_reverser (o : Ops V) (inp out : String) :
+    Frame (· = out) (fun _ => True) (reverser (σ := ATab V) o inp out) := by
+  unfold reverser
+  frame_auto
+
 theorem frame_setCoordFromAF (o : Ops V) (c nm : String) :
     Frame (· = c) (fun _ => True) (setCoordFromAF (σ := ATab V) o c nm) := by
   unfold setCoordFromAF
@@ -536,6 +554,9 @@ def touched : Op V → String → Prop
   | .binaryVoid _ in1 _ out, m => m = out.getD in1
   | .scalarVoid _ inp _ out, m => m = out.getD inp
   | .sum _, _ => False
+  | .opaqueVoid _ _ out _, m => m = out
+  | .reverser inp out, m => m = out.getD inp
+  | .probe _ _, _ => False
   | .expr rpn, m => exprT rpn m
 
 theorem frame_step (o : Ops V) (op : Op V) : Frame (touched op) (fun _ => True) (step (σ := ATab V) o op) := by
@@ -550,6 +571,9 @@ theorem frame_step (o : Ops V) (op : Op V) : Frame (touched op) (fun _ => True) 
   | binaryVoid k in1 in2 out => unfold step; exact frame_bind (P := fun _ => True) (frame_binaryVoid o k in1 in2 _) (fun _ _ => frame_pure _ trivial)
   | scalarVoid k inp arg out => unfold step; exact frame_bind (P := fun _ => True) (frame_scalarVoid o k inp arg _) (fun _ _ => frame_pure _ trivial)
   | sum inp => unfold step; exact frame_bind (P := fun _ => True) (frame_sumOp o inp) (fun _ _ => frame_pure _ trivial)
+  | opaqueVoid cols cells out vals => unfold step; exact frame_bind (P := fun _ => True) (frame_opaqueVoid o cols cells out vals) (fun _ _ => frame_pure _ trivial)
+  | reverser inp out => unfold step; exact frame_bind (P := fun _ => True) (frame_reverser o inp _) (fun _ _ => frame_pure _ trivial)
+  | probe cols cells => unfold step; exact frame_bind (P := fun _ => True) (frame_readAll o cols cells) (fun _ _ => frame_pure _ trivial)
   | expr rpn => unfold step; exact frame_operateStr o rpn
 
 theorem aread_same (o : Ops V) {T : String → Prop} {a a' : ATab V} (h : Same T a a') (m : String) (hm : ¬ T m) :
